@@ -33,6 +33,24 @@ CHECKS = {
             "TLA+ spec + TLC trace validation", "5 (C16)"),
 }
 
+CHECKS.update({
+    "C08": ("model_checking", "TLC shows the bit-serial, table and transcribed fast-path CRC-32C agree for every chunking in scope and, by linearity, that "
+            "every single-byte error at every distance up to 4096 bytes has a non-zero syndrome; the crate's own checksums of arbitrary data "
+            "and its open/verify verdicts on every mutated copy are validated by TLC from the bytes alone.",
+            "TLA+ spec + TLC model checking + trace validation", "5 (C08)"),
+    "C09": ("translation_validation", "Every file the real builders produce is validated by TLC against an independent TLA+ semantics of the "
+            "version-3 format (FstFormat): header, footer, checksum, every node, tiling, backward targets, and the map read by the format "
+            "alone; the real node encoder is validated at all delta widths through hook H3.",
+            "TLA+ format spec + TLC validation of produced files", "5 (C09)"),
+    "C10": ("model_checking", "The specification's own encoder writes files of versions 1, 2, 3 (TLC enumerates the scope); the real crate must open "
+            "them through every container type and answer every query per FstAbs; opening classes over the header/footer space are "
+            "checked against FstFormat!OpenClasses.",
+            "TLA+ spec + TLC-generated files replayed into the crate + trace validation", "5 (C10)"),
+    "C20": ("model_checking", "Every explored byte string goes through open, accessors and verify under catch_unwind and the recorded results must be "
+            "those FstFormat derives from the bytes (a panic has no spec action); absence of unsafe code is decided by rustc -F unsafe_code.",
+            "TLA+ spec + TLC trace validation; compiler lint for the unsafe clause", "5 (C20), 7"),
+})
+
 NOT_YET = {
 }
 
